@@ -23,7 +23,7 @@ P = {
     "claimed": True,
     "coq_targets": ["Properties/C16.vo", "Run/Eval_C16.vo"],
     "theorems_module": "Properties.C16",
-    "theorems": ["C16_system_claims_win", "C16_exp_is_ttl_later", "C16_load_accepts_exactly_usable", "C16_load_never_panics",
+    "theorems": ["C16_system_claims_win", "C16_exp_is_ttl_later", "C16_load_never_panics",
                  "C16_header_names_active_key", "C16_token_verifies_against_published", "C16_jwks_public_only",
                  "C16_run_meets_spec", "C16_run_meets_property", "C16_run_meets_spec_pinned", "C16_F1_pinned_refuted", "C16_F2_pinned_refuted", "C16_variant_overlays_catalogue", "C16_variant_token", "C16_nonvacuous",
                  "C16_consistent_pair", "C16_sign_sees_one_load", "C16_torn_skeleton_refuted"],
